@@ -3,6 +3,11 @@ package main
 import (
 	"github.com/go-i2p/common/certificate"
 	"github.com/go-i2p/common/data"
+	"github.com/go-i2p/common/destination"
+	"github.com/go-i2p/common/key_certificate"
+	"github.com/go-i2p/common/keys_and_cert"
+	"github.com/go-i2p/common/router_identity"
+	"github.com/go-i2p/crypto/types"
 	"github.com/go-i2p/common/router_address"
 	"github.com/go-i2p/common/router_info"
 	"github.com/go-i2p/common/session_key"
@@ -12,13 +17,113 @@ import (
 // Mutable objects (Objects.tla): ObjNew creates the session's object, ObjCall applies one exported mutator to it.
 // After a call the driver reports what the call returned and, when asked, what the public API shows of the object.
 
-func objObserve(o any) map[string]any {
+// kept: values the object handed out earlier in the session (certificates a builder built, identities made from them, struct copies
+// of a RouterInfo) with what they serialised to at the time.  Later calls on the object must not change them.
+type keptItem struct {
+	what string
+	ser  func() ([]byte, bool)
+	was  []byte
+}
+
+func keep(s *Session, what string, ser func() ([]byte, bool)) {
+	b, ok := ser()
+	if !ok {
+		return
+	}
+	l, _ := s.Vals["kept"].(*[]keptItem)
+	if l == nil {
+		l = &[]keptItem{}
+		s.Vals["kept"] = l
+	}
+	if len(*l) < 64 {
+		*l = append(*l, keptItem{what, ser, append([]byte{}, b...)})
+	}
+}
+
+// keptBefore: the first n kept items (those that existed before the current call)
+func keptBefore(s *Session, n int) (int, bool, string) {
+	l, _ := s.Vals["kept"].(*[]keptItem)
+	if l == nil || n == 0 {
+		return 0, true, ""
+	}
+	for _, k := range (*l)[:n] {
+		b, ok := k.ser()
+		if !ok || string(b) != string(k.was) {
+			return n, false, k.what
+		}
+	}
+	return n, true, ""
+}
+
+func keptState(s *Session) (n int, unchanged bool, which string) {
+	l, _ := s.Vals["kept"].(*[]keptItem)
+	if l == nil {
+		return 0, true, ""
+	}
+	for _, k := range *l {
+		b, ok := k.ser()
+		if !ok || string(b) != string(k.was) {
+			return len(*l), false, k.what
+		}
+	}
+	return len(*l), true, ""
+}
+
+// keepCertificate: the certificate itself, and - when it is a KEY certificate for Ed25519/X25519-sized keys - a RouterIdentity and a
+// Destination made from it through the library's constructors (they hold on to the certificate they were given)
+func keepCertificate(s *Session, c *certificate.Certificate) {
+	if c == nil {
+		return
+	}
+	keep(s, "certificate", func() ([]byte, bool) { return c.Bytes(), true })
+	kc, err := key_certificate.KeyCertificateFromCertificate(c)
+	if err != nil || kc == nil {
+		return
+	}
+	keep(s, "key certificate", func() ([]byte, bool) { return kc.Certificate.Bytes(), true })
+	sps, cps := kc.SigningPublicKeySize(), kc.CryptoSize()
+	if sps <= 0 || cps <= 0 || sps > 128 || cps > 256 {
+		return
+	}
+	im := Args{"st": float64(kc.SigningPublicKeyType()), "ct": float64(kc.PublicKeyType()), "pub": anyBytes(fillBytes(cps, 3)), "spk": anyBytes(fillBytes(sps, 5)),
+		"padding": anyBytes(fillBytes(384-cps-sps, 7))}
+	var pub types.ReceivingPublicKey = mkPub(im.Int("ct"), im.Bytes("pub"))
+	var spk types.SigningPublicKey = mkSpk(im.Int("st"), im.Bytes("spk"))
+	if pub == nil || spk == nil {
+		return
+	}
+	if k, err := keys_and_cert.NewKeysAndCert(kc, pub, im.Bytes("padding"), spk); err == nil && k != nil {
+		keep(s, "keys and cert", func() ([]byte, bool) { b, e := k.Bytes(); return b, e == nil })
+		if ri, err := router_identity.NewRouterIdentityFromKeysAndCert(k); err == nil && ri != nil {
+			keep(s, "router identity (with its Validate verdict)", func() ([]byte, bool) {
+				b, e := ri.KeysAndCert.Bytes()
+				return append(b, boolByte(ri.Validate() == nil)), e == nil
+			})
+		}
+		if d, err := destination.NewDestination(k); err == nil && d != nil {
+			keep(s, "destination (with its Validate verdict)", func() ([]byte, bool) {
+				b, e := d.Bytes()
+				return append(b, boolByte(d.Validate() == nil)), e == nil
+			})
+		}
+	}
+}
+
+func boolByte(b bool) byte {
+	if b {
+		return 1
+	}
+	return 0
+}
+
+func objObserve(s *Session, o any) map[string]any {
 	switch x := o.(type) {
 	case *certificate.CertificateBuilder:
 		c, err := x.Build()
 		m := map[string]any{"ok": err == nil && c != nil, "ser": []int{}}
 		if err == nil && c != nil {
 			m["ser"] = ints(c.Bytes())
+			keepCertificate(s, c)
 		}
 		return m
 	case *session_key.SessionKey:
@@ -82,7 +187,7 @@ func init() {
 		if !ok {
 			return Res{"ok": false, "err": "unknown object", "obs": map[string]any{}}
 		}
-		return Res{"ok": true, "err": "", "obs": objObserve(o)}
+		return Res{"ok": true, "err": "", "obs": objObserve(s, o)}
 	})
 	register("ObjCall", func(s *Session, a Args) Res {
 		o, have := s.Vals["obj"]
@@ -91,6 +196,7 @@ func init() {
 		}
 		c := sub(a, "c")
 		var err error
+		nkBefore, _, _ := keptState(s)
 		switch x := o.(type) {
 		case *certificate.CertificateBuilder:
 			switch c.Str("m") {
@@ -103,7 +209,11 @@ func init() {
 			case "Validate":
 				err = x.Validate()
 			case "Build":
-				_, err = x.Build()
+				var bc *certificate.Certificate
+				bc, err = x.Build()
+				if err == nil {
+					keepCertificate(s, bc)
+				}
 			}
 		case *session_key.SessionKey:
 			err = x.SetBytes(c.Bytes("b"))
@@ -120,13 +230,32 @@ func init() {
 			if rerr != nil {
 				return Res{"ok": false, "err": "driver: address does not parse: " + errStr(rerr), "observed": false, "obs": map[string]any{}, "have": true, "badarg": true}
 			}
-			err = x.AddAddress(&ra)
+			// a plain struct copy taken before the call stays what it was, and a call on a copy leaves the original alone
+			before := *x
+			keep(s, "RouterInfo copied before AddAddress", func() ([]byte, bool) {
+				b, e := before.Bytes()
+				return append(b, byte(before.RouterAddressCount()), byte(len(before.RouterAddresses()))), e == nil
+			})
+			if c.Bool("oncopy") {
+				cp := *x
+				err = cp.AddAddress(&ra)
+				keep(s, "RouterInfo whose copy had AddAddress called", func() ([]byte, bool) {
+					b, e := x.Bytes()
+					return append(b, byte(x.RouterAddressCount()), byte(len(x.RouterAddresses()))), e == nil
+				})
+				s.Vals["obj"] = &cp // the session's object is the copy from here on (the abstract state follows the call); x stays as it is
+				o = &cp
+			} else {
+				err = x.AddAddress(&ra)
+			}
 		}
 		r := Res{"ok": err == nil, "err": errStr(err), "have": true, "observed": false, "obs": map[string]any{}}
 		if a.Bool("obs") {
 			r["observed"] = true
-			r["obs"] = objObserve(o)
+			r["obs"] = objObserve(s, o)
 		}
+		// what the object handed out BEFORE this call (and the observation after it) is still what it was
+		r["nkept"], r["kept_unchanged"], r["kept_changed"] = keptBefore(s, nkBefore)
 		return r
 	})
 }
